@@ -10,7 +10,7 @@ correspondence: implementation vs the Coq model on the same texts plus raw chara
 import itertools
 
 from . import core
-from .core import cstr, cflt, clist, cnat
+from .core import cstr, cflt, clist, cnat  # noqa: F401
 
 PID = 'C02'
 OPS = ['**', '*', '/', '%', '+', '-', '<=', '<', '>=', '>', '==', '!=', '&&', '||']
@@ -244,7 +244,9 @@ def raw_fuzz(r):
 def expr_coq(t):
     k = t[0]
     if k == 'num':
-        return f'(ENum {cflt(float.fromhex(t[1]))})'
+        return f'(ENum (NFlt {cflt(float.fromhex(t[1]))}))'
+    if k == 'int':
+        return f'(ENum (NInt ({int(t[1])})%Z))'
     if k == 'str':
         return f'(EStr {cstr(t[1])})'
     if k == 'var':
@@ -367,7 +369,7 @@ def run(tier):
             pick += idxs
         # cases that the oracle flagged always go to the model too
         terms = [f'eres_eqb (parse_expression {cstr(texts[i])}) {result_coq(impl[i])}' for i in pick]
-        bad, errors = core.coq_bools('c02', 'Model.Base Model.ExprParser', terms)
+        bad, errors = core.coq_bools('c02', 'Model.Base Model.Num Model.ExprParser', terms)
         corr_n = len(pick)
         for k, log in errors:
             chk.corr_fail.append({'class': 'case-file-did-not-evaluate', 'shard': k, 'log': log[-800:]})
